@@ -294,6 +294,65 @@ def est_via_zip(ctx, facts, fid):
     return True
 
 
+def _while_front(ctx, fid, fn, t, loop):
+    """the counting loop written `let mut i = 0; while i < len { ..a[i] == b[i].. ; i += 1; .. }` (rulelib.counted_loop): the index is the
+    iteration number, the loop runs len times, the one `count += 1` is guarded by one equality a[i] == b[i] whose two reads are made
+    before the index is stepped (directly, or through an immutable flag `let same = a[i] == b[i]` computed before the step)"""
+    from ..rulelib import counted_loop
+    from .. import ratfn
+    R = resolver_of(fn)
+    cl = counted_loop(fn, loop)
+    if cl is None:
+        ctx.violation("EST", fid, "F2 loop", hirq.loc(loop), "the loop is neither a `for` over a range nor a counted `while` (one unconditional top-level step of the index)")
+        return None
+    var = cl["var"]
+    T = (ratfn.p_atom("#t"), ratfn.ONE)
+    if not ratfn.equal(cl["value"](loop), T):
+        ctx.violation("EST", fid, "F2 range", hirq.loc(loop), "the index `%s` is not the iteration number (it must start at 0 and advance by one)" % var)
+        return None
+    body = cl["body"]
+    accs = [n for n in user_nodes(fn) if n["k"] in ("Assign", "AssignOp") and t.contains(body, n) and n is not cl["step"]]
+    if len(accs) != 1 or accs[0]["k"] != "AssignOp" or accs[0]["op"] != "+=" or nf.nf(accs[0]["r"]) != "1":
+        ctx.violation("EST", fid, "F3 accumulation", hirq.loc(loop), "the loop body must contain exactly one `count += 1` beside the index step; found %s" % [nf.nf(a_)[:40] for a_ in accs])
+        return None
+    acc = accs[0]
+    cnt = nf.nf(acc["l"])
+    cs = [(c_, pol) for (c_, pol) in t.conditions(acc, stop=loop) if c_ is not cl.get("guard")]
+    if len(cs) != 1 or cs[0][1] not in (True, False):
+        ctx.violation("EST", fid, "F3 condition", hirq.loc(acc), "`%s += 1` must be guarded by exactly one equality a[i] == b[i]; conditions: %s" % (cnt, nf.all_conditions(t, acc, stop=body)))
+        return None
+    cnode, pol = nf.strip(cs[0][0]), cs[0][1]
+    while cnode["k"] == "Unary" and cnode["op"] == "!":
+        cnode, pol = nf.strip(cnode["e"]), not pol
+    site = cnode
+    if cnode["k"] == "Path" and "local" in cnode["res"]:
+        ds = def_exprs(fn, cnode["res"]["name"])
+        d_ = R.defs.get(cnode["res"]["local"]) if hasattr(R, "defs") else None
+        if len(ds) != 1 or d_ is None:
+            ctx.violation("EST", fid, "F3 condition", hirq.loc(acc), "the flag `%s` guarding `%s += 1` is not an immutable local with one definition" % (cnode["res"]["name"], cnt))
+            return None
+        site = nf.strip(d_)
+        while site["k"] == "Unary" and site["op"] == "!":
+            site, pol = nf.strip(site["e"]), not pol
+    if site["k"] != "Binary" or site["op"] not in ("==", "!=") or (site["op"] == "==") != bool(pol):
+        ctx.violation("EST", fid, "F3 condition", hirq.loc(acc), "`%s += 1` is not counted exactly when a[i] == b[i] (found `%s`, polarity %s)" % (cnt, nf.nf(site, True)[:60], pol))
+        return None
+    if not ratfn.equal(cl["value"](site), T):
+        ctx.violation("EST", fid, "F3 compared elements", hirq.loc(site), "the comparison reads the index after it has been advanced: it compares position i+1")
+        return None
+    m1 = re.match(r"^(.*)\[(\w+)\]$", nf.nf(site["l"], True))
+    m2 = re.match(r"^(.*)\[(\w+)\]$", nf.nf(site["r"], True))
+    if not m1 or not m2 or m1.group(2) != var or m2.group(2) != var or m1.group(1) == m2.group(1):
+        ctx.violation("EST", fid, "F3 compared elements", hirq.loc(site), "the comparison `%s` is not a[%s] == b[%s] on the two sketches with the loop index on both sides" % (nf.nf(site, True)[:60], var, var))
+        return None
+    a, b = m1.group(1), m2.group(1)
+    lens = {"%s.len()" % a, "%s.len()" % b}
+    if not any(ratfn.equal(cl["count"], (ratfn.p_atom(l_), ratfn.ONE)) for l_ in lens):
+        ctx.violation("EST", fid, "F2 range", hirq.loc(loop), "the loop runs %s times; expected the length of one of the two sketches (%s)" % (ratfn.show(cl["count"]), sorted(lens)))
+        return None
+    return ({"match": loop, "loop": loop}, R, var, acc, cnt, a, b, lens)
+
+
 def est_template(ctx, facts, fid):
     fn = facts.fn(fid)
     t = tree_of(fn)
@@ -310,55 +369,65 @@ def est_template(ctx, facts, fid):
             return ("zip", None)
         if est_via_fold(ctx, facts, fid):
             return ("fold", None)
-    if len(fls) != 1 or [n for n in t.nodes if n["k"] == "Loop" and not hirq.in_log_macro(n)] != [fls[0]["loop"]]:
-        ctx.violation("EST", fid, "F2 loop", where, "expected exactly one for loop, found %d loop(s)" % len([n for n in t.nodes if n["k"] == "Loop"]))
-        return None
-    fl = fls[0]
-    R = resolver_of(fn)
-    var = hirq.show_pat(fl["pat"])
-    # F3: the accumulation
-    accs = [n for n in user_nodes(fn) if n["k"] in ("Assign", "AssignOp") and t.contains(fl["body"], n)]
-    if len(accs) != 1 or accs[0]["k"] != "AssignOp" or accs[0]["op"] != "+=" or nf.nf(accs[0]["r"]) != "1":
-        ctx.violation("EST", fid, "F3 accumulation", hirq.loc(fl["loop"]), "the loop body must contain exactly one `count += 1`; found %s" % [nf.nf(a)[:40] for a in accs])
-        return None
-    acc = accs[0]
-    cnt = nf.nf(acc["l"])
-    conds = nf.all_conditions(t, acc, stop=fl["loop"], res=R)
-    eq = [c for c in conds if c[0] == "cmp" and c[2] == "=="]
-    if len(conds) != 1 or len(eq) != 1:
-        ctx.violation("EST", fid, "F3 condition", hirq.loc(acc), "`%s += 1` must be guarded by exactly one equality a[i] == b[i]; conditions: %s" % (cnt, conds))
-        return None
-    zipped = None
-    itn = nf.strip(fl["iter"])
-    if itn["k"] == "MethodCall" and itn["name"] == "zip" and len(itn["args"]) == 1 and fl["pat"]["k"] == "Tuple" and len(fl["pat"]["subs"]) == 2:
-        def _base(e):
-            e = nf.strip(e)
-            while e["k"] == "MethodCall" and e["name"] in ("iter", "into_iter") and not e["args"]:
-                e = nf.strip(e["recv"])
-            return nf.nf(e, True)
-        px, py = hirq.show_pat(fl["pat"]["subs"][0]), hirq.show_pat(fl["pat"]["subs"][1])
-        if {eq[0][1], eq[0][3]} == {px, py}:
-            zipped = (_base(itn["recv"]), _base(itn["args"][0]))
-    if zipped is not None and zipped[0] != zipped[1]:
-        # for (x, y) in a.iter().zip(b.iter()) { if x == y { count += 1 } }: same-index pairs over the common length,
-        # which is the full length once F1 has established equal lengths
-        a, b = zipped
-        lens = {"%s.len()" % a, "%s.len()" % b}
+    loops_all = [n for n in t.nodes if n["k"] == "Loop" and not hirq.in_log_macro(n)]
+    wf = None
+    if not (len(fls) == 1 and loops_all == [fls[0]["loop"]]) and len(loops_all) == 1 and loops_all[0].get("src") == "While":
+        wf = _while_front(ctx, fid, fn, t, loops_all[0])
+        if wf is None:
+            return None
+    if wf is not None:
+        fl, R, var, acc, cnt, a, b, lens = wf
     else:
-        m1 = re.match(r"^(.*)\[(\w+)\]$", eq[0][1])
-        m2 = re.match(r"^(.*)\[(\w+)\]$", eq[0][3])
-        if not m1 or not m2 or m1.group(2) != var or m2.group(2) != var or m1.group(1) == m2.group(1):
-            ctx.violation("EST", fid, "F3 compared elements", hirq.loc(acc), "the comparison `%s == %s` is not a[%s] == b[%s] on the two sketches with the loop index on both sides" % (eq[0][1], eq[0][3], var, var))
+      if True:
+        if len(fls) != 1 or [n for n in t.nodes if n["k"] == "Loop" and not hirq.in_log_macro(n)] != [fls[0]["loop"]]:
+            ctx.violation("EST", fid, "F2 loop", where, "expected exactly one for loop, found %d loop(s)" % len([n for n in t.nodes if n["k"] == "Loop"]))
             return None
-        a, b = m1.group(1), m2.group(1)
-        lens = {"%s.len()" % a, "%s.len()" % b}
-        # F2: range and exits
-        rng = nf.nf(fl["iter"], True, res=R)
-        m = re.match(r"^std::ops::Range\{start:(.*), end:(.*)\}$", rng)
-        if not m or m.group(1) != "0" or _resolve(fn, m.group(2)) not in lens:
-            ctx.violation("EST", fid, "F2 range", hirq.loc(fl["loop"]), "the loop ranges over `%s`; expected 0..len of one of the two sketches (%s)" % (rng, sorted(lens)))
+        fl = fls[0]
+        R = resolver_of(fn)
+        var = hirq.show_pat(fl["pat"])
+        # F3: the accumulation
+        accs = [n for n in user_nodes(fn) if n["k"] in ("Assign", "AssignOp") and t.contains(fl["body"], n)]
+        if len(accs) != 1 or accs[0]["k"] != "AssignOp" or accs[0]["op"] != "+=" or nf.nf(accs[0]["r"]) != "1":
+            ctx.violation("EST", fid, "F3 accumulation", hirq.loc(fl["loop"]), "the loop body must contain exactly one `count += 1`; found %s" % [nf.nf(a)[:40] for a in accs])
             return None
-    exits = [k for (k, n) in loop_exits(fn, fl["loop"]) if k != "iterator-exhausted"]
+        acc = accs[0]
+        cnt = nf.nf(acc["l"])
+        conds = nf.all_conditions(t, acc, stop=fl["loop"], res=R)
+        eq = [c for c in conds if c[0] == "cmp" and c[2] == "=="]
+        if len(conds) != 1 or len(eq) != 1:
+            ctx.violation("EST", fid, "F3 condition", hirq.loc(acc), "`%s += 1` must be guarded by exactly one equality a[i] == b[i]; conditions: %s" % (cnt, conds))
+            return None
+        zipped = None
+        itn = nf.strip(fl["iter"])
+        if itn["k"] == "MethodCall" and itn["name"] == "zip" and len(itn["args"]) == 1 and fl["pat"]["k"] == "Tuple" and len(fl["pat"]["subs"]) == 2:
+            def _base(e):
+                e = nf.strip(e)
+                while e["k"] == "MethodCall" and e["name"] in ("iter", "into_iter") and not e["args"]:
+                    e = nf.strip(e["recv"])
+                return nf.nf(e, True)
+            px, py = hirq.show_pat(fl["pat"]["subs"][0]), hirq.show_pat(fl["pat"]["subs"][1])
+            if {eq[0][1], eq[0][3]} == {px, py}:
+                zipped = (_base(itn["recv"]), _base(itn["args"][0]))
+        if zipped is not None and zipped[0] != zipped[1]:
+            # for (x, y) in a.iter().zip(b.iter()) { if x == y { count += 1 } }: same-index pairs over the common length,
+            # which is the full length once F1 has established equal lengths
+            a, b = zipped
+            lens = {"%s.len()" % a, "%s.len()" % b}
+        else:
+            m1 = re.match(r"^(.*)\[(\w+)\]$", eq[0][1])
+            m2 = re.match(r"^(.*)\[(\w+)\]$", eq[0][3])
+            if not m1 or not m2 or m1.group(2) != var or m2.group(2) != var or m1.group(1) == m2.group(1):
+                ctx.violation("EST", fid, "F3 compared elements", hirq.loc(acc), "the comparison `%s == %s` is not a[%s] == b[%s] on the two sketches with the loop index on both sides" % (eq[0][1], eq[0][3], var, var))
+                return None
+            a, b = m1.group(1), m2.group(1)
+            lens = {"%s.len()" % a, "%s.len()" % b}
+            # F2: range and exits
+            rng = nf.nf(fl["iter"], True, res=R)
+            m = re.match(r"^std::ops::Range\{start:(.*), end:(.*)\}$", rng)
+            if not m or m.group(1) != "0" or _resolve(fn, m.group(2)) not in lens:
+                ctx.violation("EST", fid, "F2 range", hirq.loc(fl["loop"]), "the loop ranges over `%s`; expected 0..len of one of the two sketches (%s)" % (rng, sorted(lens)))
+                return None
+    exits = [k for (k, n) in loop_exits(fn, fl["loop"]) if k != "iterator-exhausted" and not (wf is not None and k == "guard")]
     if exits:
         ctx.violation("EST", fid, "F2 early exit", hirq.loc(fl["loop"]), "the counting loop can be left early (%s)" % exits)
         return None
@@ -414,7 +483,7 @@ PANIC_COUNTING = [
     (r"^call:panic:core::panicking::assert_failed$", "PRECONDITION", "the length mismatch report (F1)", 1),
     (r"^assert:bounds\(usize,usize\)$", "DISCHARGED", "index is the loop variable of 0..len and the lengths are equal (EST F1+F2+F3)", 4),
     (r"^call:index:&std::vec::Vec<.*>$", "DISCHARGED", "index is the loop variable of 0..len and the lengths are equal (EST F1+F2+F3)", 4),
-    (r"^assert:overflow:Add\((usize,usize|i32,i32|u32,u32|u64,u64)\)$", "ARGUED", "the counter is incremented at most len times", 1),
+    (r"^assert:overflow:Add\((usize,usize|i32,i32|u32,u32|u64,u64)\)$", "ARGUED", "the counter is incremented at most len times; a hand-stepped index (counted `while`, EST F2) is below len when it is incremented", 2),
     (r"^call:Option::unwrap on num::NumCast::from$", "ARGUED", "usize -> float conversion is total for f32/f64", 2),
 ]
 
